@@ -25,6 +25,8 @@ pub fn template(name: &str) -> &'static str {
         "SBWM" => "{spinner} {bar:4} {wide_bar} {msg} {k}",
         "B0" => "{bar:0}|{spinner:1!}",
         "WW" => "{wide_msg}{wide_bar}{spinner:>3}",
+        "WnM" => "{wide_bar} {pos}/{len}\n{msg}\n{spinner}",          // a wide element on a line that is not the last
+        "MnW" => "{msg}\n\n{prefix}{wide_msg}|\n{bar:3}",
         "bad" => "{:",
         _ => "{spinner} {bar} {msg}",
     }
